@@ -94,6 +94,15 @@ type v2run struct {
 func (r *v2run) emit(o any) { r.log = append(r.log, o) }
 
 func (r *v2run) hook(ev priority.VerifEvent) {
+	if len(r.cfg.Vals) != 0 { // the rest of the harness talks in priority identifiers
+		ev.Priority = r.cfg.rank(ev.Priority)
+		ev.Actual, ev.Tactic, ev.Strategic = r.cfg.rankMap(ev.Actual), r.cfg.rankMap(ev.Tactic), r.cfg.rankMap(ev.Strategic)
+		dr := make(map[uint]bool, len(ev.Drained))
+		for k, v := range ev.Drained {
+			dr[r.cfg.rank(k)] = v
+		}
+		ev.Drained = dr
+	}
 	if ev.Ev == "Bad" {
 		r.badSeen.Store(true)
 	}
@@ -120,13 +129,17 @@ func newV2(t *testing.T, cfg Config, gated bool) *v2run {
 	inputs := map[uint]<-chan int{}
 	for _, p := range cfg.Prios {
 		r.ins[p] = make(chan int, cfg.incap(p))
-		inputs[p] = r.ins[p]
+		inputs[cfg.val(p)] = r.ins[p]
 		r.parked[p] = &atomic.Bool{}
 	}
 	base := dividerByName(cfg.Div)
 	div := func(ps []uint, d uint, dist map[uint]uint) {
 		r.divCalls++
-		noteContract(cfg.Prios, cfg.H, ps, d, dist != nil, false)
+		rps := make([]uint, len(ps))
+		for i, p := range ps {
+			rps[i] = cfg.rank(p)
+		}
+		noteContract(cfg.Prios, cfg.H, rps, d, dist != nil, false)
 		before := uint(0)
 		for _, v := range dist {
 			before += v
@@ -247,6 +260,7 @@ func (r *v2run) recv() (bool, bool) {
 		if !ok {
 			return false, true
 		}
+		x.Priority = r.cfg.rank(x.Priority)
 		r.held = append(r.held, x.Priority)
 		r.recvCount[uint(x.Item/1000)]++
 		r.emit(obs{E: "R", P: x.Priority, C: uint(x.Item / 1000), K: x.Item % 1000})
@@ -261,7 +275,7 @@ func (r *v2run) release(p uint) error {
 		if q == p {
 			r.held = append(r.held[:j], r.held[j+1:]...)
 			r.emit(obs{E: "L", P: p})
-			go r.d.Release(p)
+			go r.d.Release(r.cfg.val(p))
 			synctest.Wait()
 			return nil
 		}
@@ -412,7 +426,7 @@ func (r *v2run) alone(pick int) {
 		}
 	}
 	note := ""
-	if unfilledBase(dividerByName(r.cfg.Div), r.cfg.Prios, r.cfg.H, p, uint(len(r.held))) {
+	if unfilledBase(rankDivider(r.cfg), r.cfg.Prios, r.cfg.H, p, uint(len(r.held))) {
 		note = "unfilled-base-division"
 	}
 	r.emit(obs{E: "QA", P: p, Held: r.heldCounts(), Note: note})
@@ -642,7 +656,7 @@ func resetV2(cfg Config, n int, cont string, fault bool) map[string]any {
 
 func shareOf(cfg Config) [][2]int {
 	dist := map[uint]uint{}
-	dividerByName(cfg.Div)(append([]uint(nil), cfg.Prios...), cfg.H, dist)
+	rankDivider(cfg)(append([]uint(nil), cfg.Prios...), cfg.H, dist)
 	out := [][2]int{}
 	for _, p := range cfg.Prios {
 		out = append(out, [2]int{int(p), int(dist[p])})
